@@ -56,7 +56,7 @@ func TestC18Threads(t *testing.T) {
 }
 
 func threadsDutyDB(t *testing.T, rt *rapid.T, k valgen.Kind, seed int64, readers, rounds int) (bool, string) {
-	ctx, cancel := context.WithTimeout(context.Background(), 20*time.Second)
+	ctx, cancel := context.WithCancel(context.Background()) // no wall-clock deadline: a slow machine is not a violation
 	defer cancel()
 	v := valgen.Unsigned(t, k, seed)
 	db := dutydb.NewMemDB(fakes.NewDeadliner())
@@ -148,7 +148,7 @@ func threadsDutyDB(t *testing.T, rt *rapid.T, k valgen.Kind, seed int64, readers
 }
 
 func threadsAggSigDB(t *testing.T, rt *rapid.T, k valgen.Kind, seed int64, readers, rounds int, v2 bool) (bool, string) {
-	ctx, cancel := context.WithTimeout(context.Background(), 20*time.Second)
+	ctx, cancel := context.WithCancel(context.Background()) // no wall-clock deadline: a slow machine is not a violation
 	defer cancel()
 	v := valgen.Signed(t, k, seed)
 	var sub core.SubcommitteeIndex
